@@ -50,7 +50,7 @@ def gen_shapes(ck, thorough):
             m, n = rng.choice(mns) if 'multisig' in kind else (1, 1)
             compressed = True if kind in SEGWIT else rng.random() < 0.7
             ins.append({'kind': kind, 'm': m, 'privs': [rng.randrange(1, ref.N) for _ in range(n)], 'compressed': compressed,
-                        'with_lock': rng.random() < 0.35,
+                        'with_lock': rng.random() < 0.35, 'no_value': kind in SEGWIT and rng.random() < 0.06,
                         'txid': bytes(rng.randrange(256) for _ in range(32)), 'vout': rng.choice([0, 1, 2, 255, 256, 70000]),
                         'amount': rng.choice(values), 'seq': rng.choice(seqs)})
         outs = []
@@ -81,7 +81,7 @@ def run_shape(job):
     """Worker: build the shape through the API; return fields for the spec and the library's observations."""
     import random
     logging.disable(logging.CRITICAL)
-    from bitcoinlib.transactions import Transaction
+    from bitcoinlib.transactions import Transaction, Input
     from bitcoinlib.keys import Key
     idx, sh = job
     net = sh['net']
@@ -103,6 +103,8 @@ def run_shape(job):
             kind = i['kind']
             wt = 'legacy' if kind not in SEGWIT else ('p2sh-segwit' if kind.startswith('p2sh-') else 'segwit')
             common_args = dict(prev_txid=i['txid'], output_n=i['vout'], value=i['amount'], sequence=i['seq'], witness_type=wt)
+            if i.get('no_value'):
+                common_args['value'] = 0          # the amount of the spent output is not known to the library
             if i.get('with_lock'):
                 # the scriptPubKey of the output being spent, as a caller building from UTXO data would pass it
                 pubs_ = [k.public_byte for k in ks]
@@ -139,6 +141,27 @@ def run_shape(job):
         out['eff_kinds'] = [i['kind'] for i in ins]
         out['eff_values'] = [o['value'] for o in sh['outs']]
         out['pubs'] = [[k.public_byte.hex() for k in ks] for ks in keyobjs]
+        if any(i.get('no_value') for i in ins):
+            # BIP143 commits to the amount: without it no valid digest exists.  Refusing is the right answer; whatever the
+            # library produces instead is compared with the digest for the TRUE amount below
+            out['no_value'] = True
+            try:
+                t.inputs = [Input(prev_txid=x.prev_txid, output_n=x.output_n, keys=x.keys, script_type=x.script_type,
+                                  sigs_required=x.sigs_required, sequence=x.sequence, witness_type=x.witness_type, index_n=x.index_n,
+                                  value=x.value, network=net) if ins[x.index_n].get('no_value') and idx % 2 else x for x in t.inputs]
+                out['unsigned'] = [t.signature_hash(n, 1, witness_type=t.inputs[n].witness_type).hex() for n in range(len(ins))]
+                for n, (i, ks) in enumerate(zip(ins, keyobjs)):
+                    t.sign(random.Random(idx * 1000 + n).sample(ks, i['m']), index_n=n)
+                out['verify'] = bool(t.verify())
+                out['sigs'] = [[[str(s.r), str(s.s), ''] for s in t.inputs[n].signatures] for n in range(len(ins))]
+                out['signed'] = [t.signature_hash(n, 1, witness_type=t.inputs[n].witness_type).hex() for n in range(len(ins))]
+                out['raw'] = t.raw().hex()
+                out['reparsed'] = out['signed']
+                out['reparsed_verify'] = None
+                out['refused'] = False
+            except Exception as e:
+                out['refused'] = True
+            return out
         out['unsigned'] = [t.signature_hash(n, 1, witness_type=t.inputs[n].witness_type).hex() for n in range(len(ins))]
         # sign: each input with m of its keys (random subset, random order)
         sigs = []
@@ -239,7 +262,8 @@ def run(replay=None):
                 i['kind'] = k
             for o, v in zip(sh['outs'], r['eff_values']):
                 o['value'] = v
-    good = [(sh, r) for sh, r in zip(shapes, results) if not r['error']]
+    nrefused = sum(1 for r in results if r.get('no_value') and r.get('refused'))
+    good = [(sh, r) for sh, r in zip(shapes, results) if not r['error'] and not (r.get('no_value') and r.get('refused'))]
     for sh, r in zip(shapes, results):
         if r['error']:
             ck.violation(None, 'clause build-raised; building/signing %s on %s raised %s' % ([i['kind'] for i in sh['ins']], sh['net'], r['error']),
@@ -253,7 +277,7 @@ def run(replay=None):
             continue
         kinds = [i['kind'] for i in sh['ins']]
         ck.traces += 1
-        if not r['verify']:
+        if not r['verify'] and not r.get('no_value'):
             ck.violation(None, 'clause self-verify; %s on %s: signed with the right keys but Transaction.verify() is False' % (kinds, sh['net']), case)
         for n, i in enumerate(sh['ins']):
             digest = eval_term(sp['digests'][n])
@@ -318,6 +342,7 @@ def run(replay=None):
                              % (where, nvalid, len(r['mut_sigs'][n]), need), case)
     ck.notes['mutations_then_resign'] = nmut
     ck.notes['mutator_refused'] = sum(1 for sh, r in good if 'mut_error' in r)
+    ck.notes['inputs_without_amount_refused'] = nrefused
     ck.notes['shapes'] = len(shapes)
     for sh in shapes[:2] + shapes[60:61]:
         ck.sample({'kinds': [i['kind'] for i in sh['ins']], 'network': sh['net'], 'outputs': len(sh['outs']), 'version': sh['version']})
